@@ -777,6 +777,117 @@ func exitTestKind(l *Loop, ifi *ssa.If, stayOnTrue bool) (string, string) {
 	return "counted", ""
 }
 
+func condOf(in ssa.Instruction) ssa.Value {
+	if ifi, ok := in.(*ssa.If); ok {
+		return ifi.Cond
+	}
+	return nil
+}
+
+// inputNumberBound: the loop's counted exit test compares the induction variable with a value
+// computed from a strconv parse (a number written in the input). Returns a rendering of the
+// bound and the induction phi.
+func inputNumberBound(fn *ssa.Function, l *Loop) (string, *ssa.Phi) {
+	for b := range l.Body {
+		ifi, ok := b.Instrs[len(b.Instrs)-1].(*ssa.If)
+		if !ok || (l.Body[b.Succs[0]] && l.Body[b.Succs[1]]) {
+			continue
+		}
+		c, ok := ifi.Cond.(*ssa.BinOp)
+		if !ok || (c.Op != token.LSS && c.Op != token.LEQ) {
+			continue
+		}
+		var phi *ssa.Phi
+		switch v := c.X.(type) {
+		case *ssa.Phi:
+			phi = v
+		case *ssa.BinOp:
+			if p, ok := v.X.(*ssa.Phi); ok {
+				phi = p
+			}
+		}
+		if phi == nil {
+			continue
+		}
+		var ins []ssa.Instruction
+		leafInstrs(c.Y, map[ssa.Value]bool{}, &ins)
+		for _, in := range ins {
+			if call, ok := in.(*ssa.Call); ok {
+				switch calleeName(call) {
+				case "strconv.ParseUint", "strconv.ParseInt", "strconv.Atoi":
+					return Term(c.Y), phi
+				}
+			}
+		}
+	}
+	return "", nil
+}
+
+// foundKeyedByInduction: cond with polarity pol says that a lookup made inside the loop with a
+// key computed from the induction variable succeeded (err == nil, or comma-ok true).
+func foundKeyedByInduction(cond ssa.Value, pol bool, l *Loop, phi *ssa.Phi) bool {
+	for {
+		if u, ok := cond.(*ssa.UnOp); ok && u.Op == token.NOT {
+			cond, pol = u.X, !pol
+			continue
+		}
+		break
+	}
+	var ex *ssa.Extract
+	switch c := cond.(type) {
+	case *ssa.BinOp:
+		if c.Op != token.EQL && c.Op != token.NEQ {
+			return false
+		}
+		if (c.Op == token.EQL) != pol {
+			return false // err != nil on this path
+		}
+		if isNilConst(c.Y) {
+			ex, _ = c.X.(*ssa.Extract)
+		} else if isNilConst(c.X) {
+			ex, _ = c.Y.(*ssa.Extract)
+		}
+		if ex == nil || !isErrorType(ex.Type()) {
+			return false
+		}
+	case *ssa.Extract:
+		if !pol {
+			return false
+		}
+		if b, ok := c.Type().Underlying().(*types.Basic); !ok || b.Kind() != types.Bool {
+			return false
+		}
+		ex = c
+	default:
+		return false
+	}
+	var args []ssa.Value
+	switch t := ex.Tuple.(type) {
+	case *ssa.Call:
+		if !l.Body[t.Block()] {
+			return false
+		}
+		args = t.Call.Args
+	case *ssa.Lookup:
+		if !l.Body[t.Block()] {
+			return false
+		}
+		args = []ssa.Value{t.Index}
+	default:
+		return false
+	}
+	for _, a := range args {
+		var ins []ssa.Instruction
+		leafInstrs(a, map[ssa.Value]bool{}, &ins)
+		for _, in := range ins {
+			if in == ssa.Instruction(phi) {
+				return true
+			}
+		}
+	}
+	return false
+}
+
 func (x *aup) scope() []*ssa.Function {
 	return x.w.reachable([]*ssa.Function{x.parseLogLine, x.parse, x.data, x.tags, x.toMapStr}, func(f *ssa.Function) bool {
 		return x.w.inPkg(f, "auparse") || x.w.inPkg(f, "internal")
@@ -793,6 +904,40 @@ func terminationRule(r *Run, w *World, ruleID string, scope []*ssa.Function, rev
 		for i, l := range NaturalLoops(fn) {
 			kind, why := loopKind(fn, l)
 			key := fmt.Sprintf("%s loop#%d", fnName(fn), i)
+			if kind == "counted" {
+				// a bound that is a number written in the input (not a length of it) allows ~2^32
+				// iterations for a few bytes of input unless every continuing iteration has found
+				// something the input actually contains
+				if num, phi := inputNumberBound(fn, l); num != "" {
+					ps, complete := IterationPaths(fn, l)
+					bad := ""
+					for _, p := range ps {
+						if p.End != "stop" {
+							continue
+						}
+						found := false
+						for _, e := range p.Events {
+							if e.Kind != EvCond {
+								continue
+							}
+							for _, cv := range []struct {
+								v   ssa.Value
+								pol bool
+							}{{e.Val, e.ValPol}, {condOf(e.Instr), e.Pol}} {
+								if cv.v != nil && foundKeyedByInduction(cv.v, cv.pol, l, phi) {
+									found = true
+								}
+							}
+						}
+						if !found && bad == "" {
+							bad = describePath(p)
+						}
+					}
+					r.Check(complete && bad == "", key+" bounded by "+num, l.Header.Instrs[0].Pos(), "every continuing iteration found a distinct key of the input",
+						"the iteration count is the number "+num+" read from the input (up to 2^32 for a few bytes of text) and an iteration can continue without having found a field keyed by the induction variable, so the work is not bounded by the size of the input: "+bad)
+					continue
+				}
+			}
 			if kind != "" {
 				r.OK(key, l.Header.Instrs[0].Pos(), kind)
 				continue
